@@ -3538,6 +3538,9 @@ def _for_keys_to_items(source: str) -> Iterable[Tuple[ast.AST, ast.AST]]:
         if not value_target_subscripts:
             continue
 
+        if any(not isinstance(subscript.ctx, ast.Load) for subscript in value_target_subscripts):
+            continue  # The dictionary is written to, which a loop variable cannot stand in for
+
         node_target_name = f"{core.unparse(value)}_{core.unparse(target)}"
         node_target_name = re.sub("[^a-zA-Z]", "_", node_target_name)
         yield (
